@@ -165,6 +165,19 @@ func mutants(base *ref.Program, limit int) []mutant {
 				})
 				for pi := range c.Call.Params {
 					pi := pi
+					add(fmt.Sprintf("param %s replaced by data=\"all\" plus a same-named let (locals are not forwarded)", c.Call.Params[pi].Key), func(p *ref.Program) bool {
+						_, b, _ := nthBlock(p, bi)
+						cl := (*b)[ci].Call
+						if cl.Data != nil || cl.Params[pi].Key == "depthN" {
+							return false // (the recursion counter must keep decreasing)
+						}
+						k := cl.Params[pi].Key
+						cl.DataAll = true
+						cl.Params = append(cl.Params[:pi:pi], cl.Params[pi+1:]...)
+						insertAt(b, ci+1, printVar(k))
+						insertAt(b, ci, ref.Cmd{K: "let", Var: k, Expr: &ref.Expr{Op: "int", I: 1}})
+						return true
+					})
 					add(fmt.Sprintf("call drops param %s", c.Call.Params[pi].Key), func(p *ref.Program) bool {
 						_, b, _ := nthBlock(p, bi)
 						cl := (*b)[ci].Call
